@@ -18,14 +18,14 @@ func cmdSweepFlags(args []string) {
 	out := fs.String("out", "", "result JSON")
 	fs.Parse(args)
 	var t struct {
-		Consts map[string]int
+		Consts                map[string]int
 		Get, Set, Res, Hi, Lo []int
 	}
 	loadJSON(filepath.Join(*tabdir, "FLAGS.json"), &t)
 	type mm struct {
-		What string `json:"what"`
+		What       string `json:"what"`
 		Mask, F, A int
-		Want, Got string
+		Want, Got  string
 	}
 	var bad []mm
 	add := func(m mm) {
